@@ -3,6 +3,7 @@ mod common;
 mod sodium;
 mod c12;
 mod objapi;
+mod consts;
 mod c09;
 mod c18;
 mod c07;
